@@ -129,7 +129,7 @@ pub fn spec(id: &str) -> Option<PropSpec> {
             stubs: &["file system under the index file (SimDisk behind the real StorageBackend/StorageFile traits)"],
             quarantine_note: "",
         },
-        "C03" => m("C03", 3, 15000, 300000, &["the gate is switched with the guarded hook H4 (vibesql_types::verif::skip(COLUMNAR)); the hook's hit counter shows how often the gated path was really taken", "probes are single-table COUNT/SUM/AVG/MIN/MAX (also SUM(a*b), SUM(a+k)) with WHERE restricted to what the gate admits, optional HAVING/LIMIT/OFFSET", "results compared bit-exactly including the value variant"], &[]),
+        "C03" => m("C03", 3, 15000, 300000, &["the gate is switched with the guarded hook H4 (vibesql_types::verif::skip(COLUMNAR)); the hook's hit counter shows how often the gated path was really taken", "probes are single-table COUNT/SUM/AVG/MIN/MAX (also SUM(a*b), SUM(a+k)) with WHERE restricted to what the gate admits, optional HAVING/LIMIT/OFFSET", "results compared by value (bit-exact for non-integral numbers; the variant tag of a numeric result - Integer/Bigint, Float/Double/Numeric - is not compared: the paths document different result types for AVG)", "a typed table tf (DOUBLE PRECISION, NUMERIC, REAL, VARCHAR, DATE, BOOLEAN columns; 1000-3072 rows; values and partial sums exact in f64, a third not representable in f32) in one run of six: SUM/AVG/MIN/MAX/COUNT over every column type, id ranges selecting exact multiples of the SIMD batch size, float columns against integer and decimal literals"], &[]),
         "C05" => m("C05", 5, 10000, 200000, &["'definitional nested evaluation' = all guarded switches H5 set: no join reordering, no hash join (nested loop only), no IN/EXISTS rewrite, no semi-join transform, no index-backed IN fast path, no index scan", "the cross-rendering half (IN/EXISTS/NOT IN/NOT EXISTS, comma-join permutations, INNER JOIN vs cross product + WHERE, derived-table wrapping) is metamorphic generation riding on the same runs", "NOT IN renderings are compared only with the subquery column restricted to non-NULL values and the outer column non-NULL, where the semantics coincide"], &[]),
         "C04" => m("C04", 4, 6000, 100000, &["rayon is replaced by a deterministic single-thread stand-in with rayon's documented semantics (order-preserving collect, stable par_sort_by); per combinator call the stand-in draws the execution order / split tree from a seeded schedule stream", "thresholds are switched per thread through hook H3 (never / always / 7)", "no claim about data races between real threads: the parallel closures contain no unsafe code and capture only shared references"], &["rayon (deterministic stand-in /verif/sim/simrayon)"]),
         "C32" => m("C32", 32, 2500, 60000, &["views are created in the history and stay while the data changes; every probe family = one outer query over (a) the view, (b) the defining query inlined as a derived table, (c) the defining query as a CTE; all three must agree after every step", "every view exposes two columns a, b; definitions: filtered projection, explicit column list, expression column, GROUP BY aggregate, two-table join, view over view, DISTINCT", "dropping a view that another view depends on is not generated"], &[]),
